@@ -47,43 +47,91 @@ def pyContains (container x : PyVal) : Except Err Bool :=
   | .none | .bool _ | .int _ | .float _ => .error .typeError
   | .other _ => .error .other
 
+/-- every arch of the child is `in` the parent's arch container; first failure wins -/
+def allIn (container : PyVal) : List PyVal → Except Err Unit
+  | [] => .ok ()
+  | a :: rest => match pyContains container a with
+      | .ok true => allIn container rest
+      | .ok false => .error .valueError
+      | .error e => .error e
+
+def isNoneV : PyVal → Bool | .none => true | _ => false
+def isForeign : PyVal → Bool | .other _ => true | _ => false
+
+/-- pseudo-attribute `parent.<f>` -/
+def parentAttr (o : Obj) (f : Str) : PyVal := ((o.get c!"parent").get? f).getD .none
+
 /-- composeinfo `Variant._validate_parent_arch`, with Python's `in` for every kind of parent arch container -/
 def ciVariantParentArch2 (o : Obj) : Except Err Unit :=
-  match o.get c!"parent" with
-  | .none => .ok ()
-  | p =>
-    match pyIter (o.get c!"arches") with
-    | none => .error .typeError
-    | some arches =>
-      arches.foldl (fun acc a => acc.bind fun _ =>
-        match pyContains ((p.get? c!"arches").getD .none) a with
-        | .ok true => .ok ()
-        | .ok false => .error .valueError
-        | .error e => .error e) (.ok ())
+  if isNoneV (o.get c!"parent") then .ok () else
+  match pyIter (o.get c!"arches") with
+  | none => .error .typeError
+  | some arches => allIn (parentAttr o c!"arches") arches
 
-/-- composeinfo `Variant._validate_uid`: since the F23 repair the type of `uid` is asserted first, in `ciVariantUid` itself -/
-def ciVariantUid2 (o : Obj) : Except Err Unit := ciVariantUid o
+/-- `"%s-%s" % (self.parent.uid, self.id)` compared with the (string) uid; `Err.other` = the model cannot format a list, a
+dict or a foreign object (Python can: the outcome is then "equal or ValueError", which of the two is not modelled) -/
+def alignedWith (o : Obj) (u : Str) : Except Err Unit :=
+  match pyFormat (parentAttr o c!"uid"), pyFormat (o.get c!"id") with
+  | some pu, some i => if u == pu ++ '-' :: i then .ok () else .error .valueError
+  | _, _ => .error .other
 
-/-- treeinfo `Variant._validate_uid`, same refinement -/
+/-- composeinfo `Variant._validate_uid` (with the F23 repair: `_assert_type("uid", str)` comes first) -/
+def ciVariantUid2 (o : Obj) : Except Err Unit :=
+  match o.get c!"uid" with
+  | .str u =>
+    if isNoneV (o.get c!"parent") then
+      (if PyVal.pyEq (.str (Str.removeChar '-' u)) (o.get c!"id") then .ok () else .error .valueError)
+    else alignedWith o u
+  | _ => .error .typeError
+
+/-- treeinfo `Variant._validate_uid`: a non-string uid under a parent differs from every formatted string -/
 def tiVariantUid2 (o : Obj) : Except Err Unit :=
-  match o.get c!"parent", o.get c!"uid" with
-  | .none, _ => .ok ()
-  | _, .str _ => tiVariantUid o
-  | _, _ => .error .valueError
+  if isNoneV (o.get c!"parent") then .ok () else
+  match o.get c!"uid" with
+  | .str u => alignedWith o u
+  | _ => .error .valueError
 
-/-- treeinfo `Checksums._validate_checksum_paths` (bound here: it exists since the F4 repair) -/
+/-- treeinfo `Checksums._validate_checksum_paths` (exists since the F4 repair); a container that is not a dict is a
+wrong-shape skeleton (`Err.other`: the writer fails later on `.items()`, not modelled) -/
 def tiChecksumPaths (o : Obj) : Except Err Unit :=
   match o.get c!"checksums" with
   | .dict kvs => if kvs.any (fun kv => Str.startsWith kv.1 ['/']) then .error .valueError else .ok ()
   | .none | .bool _ | .int _ | .float _ => .error .typeError
   | _ => .error .other
 
+/-- one platform table of treeinfo `Images`: every path a relative string (F23 repair: TypeError for a non-string) -/
+def pathsOk : List (Str × PyVal) → Except Err Unit
+  | [] => .ok ()
+  | (_, .str s) :: rest => if Str.startsWith s ['/'] then .error .valueError else pathsOk rest
+  | _ :: _ => .error .typeError
+
+/-- treeinfo `Images._validate_image_paths`; a platform table that is not a dict is a wrong-shape skeleton
+(`self.images[platform].items()` raises AttributeError) -/
+def platsOk : List (Str × PyVal) → Except Err Unit
+  | [] => .ok ()
+  | (_, .dict kv) :: rest => match pathsOk kv with
+      | .ok () => platsOk rest
+      | .error e => .error e
+  | _ :: _ => .error .attributeError
+
+def tiImagePaths2 (o : Obj) : Except Err Unit :=
+  match o.get c!"images" with
+  | .dict plats => platsOk plats
+  | _ => .ok ()
+
+/-- interpretation of `Rule.custom` for C06/C07: the nine hand-bound validator bodies (own statements of the shared bindings of
+`Model/Customs.lean`, with `in` / `%s` / container shapes spelled out); anything else is unbound and can never pass -/
 def customs2 (n : Str) (o : Obj) : Except Err Unit :=
-  if n == c!"treeinfo.Checksums._validate_checksum_paths" then tiChecksumPaths o
+  if n == c!"composeinfo.Compose._validate_label:verify_label(self.label)" then verifyLabel (o.get c!"label")
   else if n == c!"composeinfo.Variant._validate_parent_arch" then ciVariantParentArch2 o
   else if n == c!"composeinfo.Variant._validate_uid" then ciVariantUid2 o
+  else if n == c!"composeinfo.VariantBase._validate_variants" then validateVariantKeys o
+  else if n == c!"discinfo.DiscInfo._validate_timestamp" then discTimestamp o
+  else if n == c!"treeinfo.Checksums._validate_checksum_paths" then tiChecksumPaths o
+  else if n == c!"treeinfo.Images._validate_image_paths" then tiImagePaths2 o
+  else if n == c!"treeinfo.Images._validate_platforms" then tiImagePlatforms o
   else if n == c!"treeinfo.Variant._validate_uid" then tiVariantUid2 o
-  else customs n o
+  else .error .other
 
 def genRules (cls : String) : List Rule := ((Gen.allClasses.find? (·.1 == cls)).map (·.2.flat)).getD []
 
